@@ -13,3 +13,4 @@ func TestC13(t *testing.T) { RunProfileTest(t, ProfileC13) }
 func TestC15(t *testing.T) { RunProfileTest(t, ProfileC15) }
 func TestC18(t *testing.T) { RunProfileTest(t, ProfileC18) }
 func TestC04(t *testing.T) { RunProfileTest(t, ProfileC04) }
+func TestC07Chain(t *testing.T) { RunProfileTest(t, ProfileC07) }
